@@ -3,7 +3,7 @@ From Coq Require Import List ZArith Bool.
 From Coq.Strings Require Import Byte.
 Import ListNotations.
 From Zap Require Import Base.Wire Enc.Bytes Enc.Fields Enc.JsonEnc Enc.JsonParse Enc.WireEnc Enc.JsonAst Enc.Wf
-  Enc.Parse3 Enc.Parse4 C02.Model C10.Model C10.Proofs.
+  Enc.Parse3 Enc.Parse4 Enc.Console C02.Model C10.Model C10.Proofs.
 
 (* Whatever fails inside the field trees, the entry is still one valid JSON object that decodes to the
    reference members: there is no hypothesis excluding faults (marshaler errors at any depth,
@@ -47,24 +47,52 @@ Theorem C10_siblings_intact : forall c fs1 f fs2 o, ev_flds c (fs1 ++ f :: fs2) 
 Proof. exact siblings. Qed.
 Print Assumptions C10_siblings_intact.
 
-(* sinks and cores: for every tree of cores (tees and forwarding wrappers to any depth), every
-   per-sink outcome and every entry, CheckedEntry.Write + multiCore.Write + ioCore.Write reach every
-   sink exactly once, in order, whatever failed before (the remaining cores of a tee still get the entry),
-   and collect every write error, in order, into the one report on the error output *)
-Theorem C10_sink_all_written : forall hi k c, fst (entry_write hi k c) = spec_events hi k c.
+(* sinks and cores: for every tree of cores (tees and forwarding wrappers to any depth, each ioCore with
+   its own JSON or console encoder), every per-sink outcome and every entry, CheckedEntry.Write +
+   multiCore.Write + ioCore.Write reach every sink exactly once, in order, whatever failed before (the
+   remaining cores of a tee still get the entry), hand it the line its own encoder produces for THIS
+   entry, and collect every write error, in order, into the one report on the error output *)
+Theorem C10_sink_all_written : forall line hi k c, fst (entry_write line hi k c) = spec_events line hi k c.
 Proof. exact sink_events. Qed.
 Print Assumptions C10_sink_all_written.
-Theorem C10_sink_write_errors_reported : forall hi k c, snd (entry_write hi k c) = spec_write_errs k c.
+Theorem C10_sink_write_errors_reported : forall line hi k c, snd (entry_write line hi k c) = spec_write_errs k c.
 Proof. exact sink_errs. Qed.
 Print Assumptions C10_sink_write_errors_reported.
+
+(* what the sinks receive is the entry, intact: the line of a JSON core decodes to exactly the reference
+   members of the entry, the line of a console core is exactly the documented shape - there is no
+   hypothesis about the outcomes of the other sinks or of earlier entries *)
+Theorem C10_sink_line_json : forall c ctxs ent fs,
+  q_nil_caller_guard c = true -> q_layout_escaped c = true ->
+  forallb wf_flds ctxs = true -> wf_flds fs = true -> wf_entry ent = true ->
+  line_obj (resolved_le c) (entry_line c ctxs ent fs false) = Some (jv_mem (entry_members c ctxs ent fs)).
+Proof. exact line_json. Qed.
+Print Assumptions C10_sink_line_json.
+Theorem C10_sink_line_console : forall c ctxs ent fs, forallb wf_flds ctxs = true -> wf_flds fs = true ->
+  entry_line c ctxs ent fs true = Console.console_spec c ctxs ent fs.
+Proof. exact line_console. Qed.
+Print Assumptions C10_sink_line_console.
+(* over sequences of entries (each logged through a logger derived by a prefix of the With chain): the
+   k-th entry reaches every sink of the tree once, in order, as its own line, and exactly its own write
+   failures are collected, whatever the outcomes of the entries before it ... *)
+Theorem C10_sink_sequence : forall c ctxs t es k e, nth_error es k = Some e ->
+  nth_error (run_seq c ctxs t es) k = Some (spec_events (pent_line c ctxs e) (p_hi e) k t, spec_write_errs k t).
+Proof. exact seq_entry. Qed.
+Print Assumptions C10_sink_sequence.
+(* ... and each of those lines passes the oracle's reading of "the sink received the entry" *)
+Theorem C10_sink_entry_intact : forall c ctxs e con, q_nil_caller_guard c = true -> q_layout_escaped c = true ->
+  forallb wf_flds ctxs = true -> wf_pent e = true ->
+  payload_ok c (firstn (p_d e) ctxs) (p_ent e) (p_fs e) con (pent_line c ctxs e con) = true.
+Proof. exact seq_entry_intact. Qed.
+Print Assumptions C10_sink_entry_intact.
 
 (* the full statement (sync failures reported too) is false of the code: ioCore.Write drops the
    error of the Sync it performs for entries above ErrorLevel (known finding iocore-sync-error-ignored) *)
 Theorem C10_sink_full_refuted : ~ sink_full.
 Proof. exact sink_full_refuted. Qed.
 Print Assumptions C10_sink_full_refuted.
-Theorem C10_sink_reported_partial : forall hi k c, no_sync_fault c = true ->
-  snd (entry_write hi k c) = spec_write_errs k c ++ spec_sync_errs hi k c.
+Theorem C10_sink_reported_partial : forall line hi k c, no_sync_fault c = true ->
+  snd (entry_write line hi k c) = spec_write_errs k c ++ spec_sync_errs hi k c.
 Proof. exact sink_reported_partial. Qed.
 Print Assumptions C10_sink_reported_partial.
 
@@ -73,6 +101,7 @@ Proof. exact wire_thm. Qed.
 Print Assumptions C10_wire.
 
 Example C10_example_sink :
-  entry_write true 0 (STee [SLeaf 0 [{| werr := Some [x45]; serr := None |}]; SWrap (STee [SLeaf 1 []; SLeaf 2 [{| werr := Some [x46]; serr := None |}]])])
-  = ([EvW 0; EvW 1; EvS 1; EvW 2], [[x45]; [x46]]).
+  entry_write (fun con => if con then [x43] else [x4a]) true 0
+    (STee [SLeaf 0 false [{| werr := Some [x45]; serr := None |}]; SWrap (STee [SLeaf 1 true []; SLeaf 2 false [{| werr := Some [x46]; serr := None |}]])])
+  = ([EvW 0 [x4a]; EvW 1 [x43]; EvS 1; EvW 2 [x4a]], [[x45]; [x46]]).
 Proof. vm_compute. reflexivity. Qed.
